@@ -171,7 +171,8 @@ def cube_specs(draw, max_nd=3, min_nd=0, max_n=40, tails=((), (), (2,), (3,), (1
     pads = draw(st.lists(st.integers(1, 3), min_size=nd, max_size=nd))
     return {"N": N, "dims": dims, "shape_mode": mode, "pads": pads,
             "readonly": draw(st.sampled_from([False, False, False, True, "strided", "lists"])),
-            "reverse": draw(st.booleans()), "alias": alias}
+            "reverse": draw(st.booleans()), "alias": alias,
+            "alias_kind": draw(st.sampled_from(["object", "content"]))}
 
 
 def fact_specs(N, dtypes=("float", "int"), max_k=3, dyadic=True, magnitudes=False):
@@ -517,8 +518,8 @@ def make_ccube(case, dense=None, commons=None):
     shape_arg, _ = cube_shape(case, dense)
     idxs = [build_index(a, c, readonly=case.get("readonly", False), reverse=bool(case.get("reverse")))
             for a, c in zip(dense, commons)]
-    if case.get("alias") and commons[case["alias"][0]] == commons[case["alias"][1]]:
-        idxs[case["alias"][1]] = idxs[case["alias"][0]]
+    if case.get("alias") and commons[case["alias"][0]] == commons[case["alias"][1]] and case.get("alias_kind") != "content":
+        idxs[case["alias"][1]] = idxs[case["alias"][0]]  # else: two objects with identical content
     return ccube(idxs, shape_arg), idxs
 
 
@@ -543,7 +544,7 @@ def make_xcube(case, dense=None, dtypes=None, force_explicit=False):
             if a.size and int(a.max()) > info.max:
                 dt = "int64"
         arrs.append(a.astype(dt))
-    if case.get("alias"):
+    if case.get("alias") and case.get("alias_kind") != "content":
         arrs[case["alias"][1]] = arrs[case["alias"][0]]
     if shape_arg is None:
         used = tuple(int(a.max()) + 1 for a in dense)
